@@ -83,6 +83,8 @@ def run(pid, tier, seed, replay=None):
     cases += drv.gen_random(rng, 400 if tier == "quick" else 6000)
     cases += drv.gen_budget(rng, 120 if tier == "quick" else 1500)
     cases += drv.gen_planted(rng, 12 if tier == "quick" else 150)
+    if pid == "C01":
+        cases += drv.gen_select_php(rng, 2 if tier == "quick" else 12)
     if pid == "C01":    # reaches reduce_db with blocking clauses in the database
         cases += drv.gen_enum(rng, 4, small=True) if tier == "quick" else drv.gen_enum(rng, 24)
     # the repository's own tests as an input source: every solve_sat call they make (incl. CNFs produced by the CP encoder)
